@@ -8,6 +8,15 @@ CHECKS = {
  "C01": ("exploration", "reference-model monitor (RIB fold) over seeded operation histories, compared after every operation via RIBContents, hooked pending set / refcounts and GetRIB",
          "Runs the real rib.RIB in lock step with an independent executable model of gRIBI ADD/REPLACE/DELETE/flush semantics over thousands of generated histories (tiny key space, rich payloads, invalid operations, both forward-reference modes); every verdict and the complete contents are compared after every step. Held on the histories produced, not a proof.",
          "trusted: the model (harness/model/rib.go), the canonicaliser (harness/canon), ygot's RIBContents deep copy; payload validity classes are calibrated against the schema, not re-derived", "4 C01"),
+ "C02": ("exploration", "reference-model monitor following the implementation's cascade order; bounded-exhaustive arrival orders of small dependency graphs plus random graphs with perturbations; hooked pending-set completeness check",
+         "Every arrival order of 12 small dependency graphs (both forward-reference modes, repeated to sample map-iteration order) and thousands of random graphs with delete/re-add/replace/flush perturbations are run against the real RIB; after every operation the verdict, the hooked pending set (== model's held set), completeness (nothing resolvable left held) and reference closure are checked.",
+         "trusted: model + canonicaliser; cascade orders are those Go's map iteration produced in this run (counted in evidence), not all possible ones", "4 C02"),
+ "C03": ("exploration", "invariant at a hook (reference counters == referrers recounted from contents) after every operation, plus model-judged DELETE sweep over every group/next-hop",
+         "Histories biased to retargeting references (implicit/explicit replace to other groups, NIs, next-hop sets, duplicate indices, flushes) run on the real RIB; the hooked counters are compared with referrers recounted from RIBContents after every operation and a DELETE of every group and next-hop is judged by the model (FAILED iff referenced now), followed by full teardowns.",
+         "trusted: model + canonicaliser + VerifRefCounts hook (read-only snapshot)", "4 C03"),
+ "C16": ("exploration", "folding monitor over post-change notifications compared with the reference model after every step; snapshot re-hash for resolved-entry notifications; 4 hook/NI creation orders",
+         "A consumer registered through rib.SetPostChangeHook / server.WithPostChangeRIBHook folds ADD/DELETE notifications; after every step of generated histories (Modify-like ops, held-op resolution, flushes) the fold must equal the model in every NI, in four configurations of hook registration vs NI creation. Resolved-entry snapshots are hashed on receipt and re-hashed at the end.",
+         "trusted: model + canonicaliser; resolved-entry callbacks are asynchronous: a run whose callbacks do not all arrive is inconclusive", "4 C16"),
 }
 NOT_YET = "check not built yet in this session (planned, see DESIGN.md section 4); not claimed until it exists"
 
